@@ -57,18 +57,31 @@ RULE = (
     "CR LF across k*2^20 or a NUL block at a 2^20 offset, i.e. files whose per-read legacy digest would change "
     "with the read size) and through _get_hashes(state=None) once with every file sequential and once pooled, "
     "and _get_hashes(large_file_threshold=small or huge, "
-    "jobs, drawn per-file delays so the unordered pool really completes out of order). Oracle: every oid == "
+    "jobs, drawn per-file delays so the unordered pool really completes out of order); and (drawn for five cases in six: one or both of) "
+    "the same directory read through a filesystem that is NOT the local one, so that what reports the files' "
+    "metadata is part of the input: (dfs) a dvc_data.fs.DataFileSystem view over a DataIndex backed by a cache that "
+    "holds the directory under the OTHER hash flavour (md5 <-> md5-dos2unix; md5 for sha256), so no trusted hash under "
+    "the requested name is handed over and build() must hash every file's bytes - or, a quarter of these, under the "
+    "same flavour (hashes trusted) - with entries from the lazily loaded bare stored .dir listing (info() reports size "
+    "None), with the true sizes filled in for a drawn subset, or as explicit per-file entries with meta None / Meta() "
+    "/ Meta(size); the drawn sub-directory is built through the view before or after the whole tree; (wrap) a thin "
+    "read-only fsspec filesystem over one of the two copies whose info()/ls() reports per file size None / no size "
+    "key / 0 / the true size and lists names in a drawn order. Oracle: every oid == "
     "ref_tree_oid(hashlib manifest), staged listing bytes == reference bytes, the staged listing stored with "
     "odb.add and re-parsed with Tree.load is accepted and is the same listing / id, _get_hashes maps each path to "
     "its own hashlib digest; metamorphic: every whole-tree build of a case gives ONE id and every file ONE "
-    "digest on all routings (where the legacy digest of a >1 MiB file is not pinned down, only this is asked). "
+    "digest on all routings (where the legacy digest of a >1 MiB file is not pinned down, only this is asked); the "
+    "view builds are routings like the others (id, listing bytes, per-file digests == reference / == every other "
+    "routing) and the sub-directory built through a view has the reference id and the id of the sub-directory built "
+    "from the local copy. "
     "Non-trivial: pure = >=3 entries, >=1 nested key, permutation != identity; "
     "live = nested keys, >=2 live trees and a re-digest that changes one tree's id while copies are alive; "
     "pub = nested keys and a read on a published tree whose entries differ from the working trie's current ones; "
     "hist = nested keys and a read, then an overwrite of an existing key with another hash, then a prefix-based read; "
     "fs = >=2 files and (>=2 files hashed on pool threads in one phase, or a warm build served entirely from "
     "the state, or a State pre-warmed under another algorithm, or a walk that reaches a root holding files after a "
-    "sub-directory). Distinct = SHA-1 of the case JSON."
+    "sub-directory, or a view build that really hashed a non-empty file whose info carried no / a zero size). "
+    "Distinct = SHA-1 of the case JSON."
 )
 ASSUMPTIONS = [
     "key parts are non-empty, contain no '/' and no key is a prefix of another (a tree of files), as staging produces",
@@ -92,6 +105,15 @@ ASSUMPTIONS = [
     "local store that way (non-md5 names are used for remote stores, where the State is inert), so it is "
     "recorded as an observation, not judged",
     "touch/chmod never change file contents; mtimes are set by the harness with os.utime(ns=...)",
+    "view routes: a size of None / a missing size key in info() means 'unknown' (fsspec convention, e.g. HTTP without "
+    "Content-Length; DataIndex._info_from_entry reports None for entries without a size; hash.file_md5 handles "
+    "size=None explicitly) and a size of 0 for a file that has bytes is what procfs-like / generated-content sources "
+    "report; none of them says anything about the contents, which build() must read. The DataFileSystem view is "
+    "judged only when the harness has read back from the source cache exactly the bytes of every file (a CRLF and "
+    "an LF twin share one md5-dos2unix address, so a legacy cache cannot always hold the directory faithfully; such "
+    "cases are labelled and skipped). With the same flavour on both sides build() may trust the hashes / the "
+    "directory id the index hands over; the id must still be the reference. State is inert for non-local "
+    "filesystems (State.get/save return early)",
     "per-file delays (2 ms sleeps inside a wrapper around build.hash_file) only shape the completion order of "
     "the hashing pool; no verdict depends on time",
 ]
@@ -365,6 +387,31 @@ def rename_nodes(tree, renames):
 FS_AWK = awkward_names()
 FS_AWK_UTF8 = awkward_names(surrogates=False)
 
+# The same generated directory read through a filesystem that is NOT the local one (what reports the files'
+# metadata is part of the input): "dfs" = a dvc_data.fs.DataFileSystem view over a DataIndex backed by a cache that
+# holds the directory under the OTHER hash flavour (so nothing hands build() a trusted hash under the requested
+# name and every file is really hashed) or under the same one (hashes trusted); the index entries come from the
+# lazily loaded stored .dir listing (no sizes: info() reports size None), carry the true sizes for a drawn subset,
+# or are explicit per-file entries with meta None / Meta() / Meta(size). "wrap" = a thin read-only fsspec
+# filesystem over one of the two local copies whose info()/ls() reports, per file, size None, no size key at all,
+# size 0, or the true size (remote filesystems that do not know sizes up front), listing names in a drawn order.
+VIEW_DFS = st.fixed_dictionaries({
+    "src": st.sampled_from(["other", "other", "other", "same"]),
+    "entries": st.sampled_from(["bare", "bare", "sized", "flat"]),
+    "mask": st.lists(st.integers(0, 2), min_size=1, max_size=6),
+    "sub_first": st.booleans(),
+    "jobs": st.sampled_from([None, 1, 2]),
+})
+VIEW_WRAP = st.fixed_dictionaries({
+    "copy": st.integers(0, 1),
+    "sizes": st.lists(st.sampled_from(["none", "none", "drop", "zero", "true"]), min_size=1, max_size=6),
+    "perm": st.lists(st.integers(0, 11), min_size=1, max_size=6),
+    "jobs": st.sampled_from([None, 1, 2]),
+})
+VIEWS = st.sampled_from(["none", "dfs", "dfs", "wrap", "both", "both"]).flatmap(lambda k: st.none() if k == "none" else (
+    st.fixed_dictionaries({"dfs": VIEW_DFS if k != "wrap" else st.none(),
+                           "wrap": VIEW_WRAP if k != "dfs" else st.none()})))
+
 
 @st.composite
 def fs_cases(draw, thorough=False):
@@ -424,6 +471,8 @@ def fs_cases(draw, thorough=False):
         # order in which an `ignore` object's walk() yields the (root, dirs, files) triples
         "walk": {"mode": draw(st.sampled_from(["topdown", "bottomup", "bottomup", "arbitrary", "arbitrary"])),
                  "perm": draw(st.lists(st.integers(0, 11), min_size=1, max_size=8))},
+        # the same directory read through a non-local filesystem (DataFileSystem view / size-blind wrapper)
+        "view": draw(VIEWS),
     }
 
 
@@ -1040,6 +1089,96 @@ class OrderedWalker:
             yield root, list(dirs), list(files)
 
 
+_BLIND = []
+
+
+def size_blind_fs(modes, perm):
+    """A thin read-only fsspec filesystem (not a LocalFileSystem, so build() takes infos from its walk()/info()
+    like it does for any remote) over local directories. `modes` maps the absolute path of a file to what info()
+    and ls() say about its size: "none" = size None (unknown, e.g. HTTP without Content-Length), "drop" = no size
+    key, "zero" = 0 although the file has bytes (procfs-like / generated content), "true" = st_size. Contents, names
+    and types are the real ones; ls() lists the names in an order permuted by `perm`."""
+    if not _BLIND:
+        from fsspec import AbstractFileSystem
+
+        class SizeBlindFS(AbstractFileSystem):
+            protocol = "vdsizeblind"
+            cachable = False
+
+            def __init__(self, modes, perm, **kw):
+                super().__init__(**kw)
+                self.modes = modes
+                self.perm = perm or [0]
+
+            def _one(self, path):
+                st_ = os.stat(path)
+                if os.path.isdir(path):
+                    return {"name": path, "type": "directory", "size": 0}
+                out = {"name": path, "type": "file", "size": st_.st_size, "mode": st_.st_mode}
+                m = self.modes.get(path, "true")
+                if m == "none":
+                    out["size"] = None
+                elif m == "drop":
+                    del out["size"]
+                elif m == "zero":
+                    out["size"] = 0
+                return out
+
+            def info(self, path, **kw):
+                return self._one(self._strip_protocol(path))
+
+            def ls(self, path, detail=True, **kw):
+                path = self._strip_protocol(path)
+                if os.path.isdir(path):
+                    names = permute(sorted(os.listdir(path)), self.perm)
+                    infos = [self._one(os.path.join(path, n)) for n in names]
+                else:
+                    infos = [self._one(path)]
+                return infos if detail else [i["name"] for i in infos]
+
+            def _open(self, path, mode="rb", **kw):
+                return open(self._strip_protocol(path), mode)  # noqa: SIM115
+
+        _BLIND.append(SizeBlindFS)
+    return _BLIND[0](modes, perm)
+
+
+def other_flavour(algo):
+    return "md5-dos2unix" if algo == "md5" else "md5"
+
+
+def data_view(spec, src_odb, root_hi, listing, sizes):
+    """DataFileSystem over a DataIndex whose ("data",) directory lives in the cache `src_odb`. `listing` is
+    [(key tuple, HashInfo)] of the stored tree, `sizes` {key tuple: true size}. Returns (view, infos-have-no-size?)"""
+    from dvc_data.fs import DataFileSystem
+    from dvc_data.hashfile.hash_info import HashInfo
+    from dvc_data.hashfile.meta import Meta
+    from dvc_data.index import DataIndex, DataIndexEntry, ObjectStorage
+
+    mask = spec["mask"]
+    keys = sorted(k for k, _ in listing)
+    pick = {k: mask[i % len(mask)] for i, k in enumerate(keys)}
+    if spec["entries"] == "flat":
+        # explicit per-file entries (no directory entry): meta None / Meta() / Meta(size=true size)
+        index = DataIndex()
+        for k, hi in listing:
+            meta = [None, Meta(size=sizes[k]), Meta()][pick[k]]
+            index[("data", *k)] = DataIndexEntry(key=("data", *k), meta=meta, hash_info=HashInfo(hi.name, hi.value))
+        sizeless = {k for k in keys if pick[k] != 1}
+    else:
+        index = DataIndex({("data",): DataIndexEntry(key=("data",), meta=Meta(isdir=True),
+                                                     hash_info=HashInfo(root_hi.name, root_hi.value))})
+        sizeless = set(keys)
+    index.storage_map.add_cache(ObjectStorage((), src_odb))
+    if spec["entries"] == "sized":
+        list(index.iteritems())  # load the directory's entries from the stored listing, then give some their sizes
+        for k in keys:
+            if pick[k] != 0:
+                index[("data", *k)].meta = Meta(size=sizes[k])
+                sizeless.discard(k)
+    return DataFileSystem(index), sizeless
+
+
 def bump_mtime(path, delta_ns):
     st_ = os.stat(path)
     os.utime(path, ns=(st_.st_atime_ns, st_.st_mtime_ns + delta_ns))
@@ -1061,6 +1200,7 @@ def run_fs(case, ctx):
 
     from dvc_data.fsutils import _localfs_info
     from dvc_data.hashfile.build import _get_hashes, build
+    from dvc_data.hashfile.transfer import transfer
     from dvc_data.hashfile.tree import Tree
 
     algo = case["algo"]
@@ -1071,6 +1211,7 @@ def run_fs(case, ctx):
     warm_hit = False
     prewarmed = False
     walk_root_late = False
+    blind_hashed = False
     fs = LocalFileSystem()
     with ctx.tmpdir() as d, HashSpy() as spy:
         try:
@@ -1114,15 +1255,15 @@ def run_fs(case, ctx):
             odb = ops.make_odb("local", os.path.join(d, "odb"), **cfg)
             spy.exclude = os.path.join(d, "odb") + os.sep
 
-            def stage(path, label, jobs, expect=want, expect_bytes=want_bytes, **kw):
+            def stage(path, label, jobs, expect=want, expect_bytes=want_bytes, vfs=None, whole=None, **kw):
                 nonlocal pool_max
-                _, _, obj = build(odb, path, fs, algo, checksum_jobs=jobs, **kw)
+                _, _, obj = build(odb, path, vfs or fs, algo, checksum_jobs=jobs, **kw)
                 calls, pooled = spy.phase()
                 pool_max = max(pool_max, pooled)
                 if not isinstance(obj, Tree):
                     viols.append(Viol(f"fs-not-a-tree:{label}", f"build({label}) returned {obj!r}"))
                     return None, calls
-                if path in (w1, w2):
+                if (path in (w1, w2)) if whole is None else whole:
                     tree_oids[label] = obj.hash_info.value
                     for k, _, hi in obj:
                         seen.setdefault("/".join(k), {}).setdefault(hi.value, f"build:{label}")
@@ -1220,6 +1361,74 @@ def run_fs(case, ctx):
                     classes.append("fs:warm-build")
             stage(w2, "second-copy", case["jobs2"])
 
+            # the drawn sub-directory and its reference (direct build vs get_obj vs views, below)
+            subdirs = sorted({tuple(r.split("/")[:k]) for r in rels for k in range(1, r.count("/") + 1)})
+            sp = subdirs[case["subdir"] % len(subdirs)] if subdirs else ()
+            below = {"/".join(r.split("/")[len(sp):]): v for r, v in manifest.items()
+                     if tuple(r.split("/")[:len(sp)]) == sp}
+            sub_pinned = all(v is not None for v in below.values())
+            sub_oid = ref_oid(below, algo) if sub_pinned else None
+            sub_bytes = ref_bytes(below, algo) if sub_pinned else None
+            view_subs = {}  # label -> Tree built for the drawn sub-directory through a view
+
+            # the same directory read through filesystems that are not the local one: the identifier, the listing
+            # and the sub-directory's identifier depend only on the (relative path, content hash) pairs, not on
+            # what the source reports about its files (sizes unknown / absent / zero) nor on who lists them
+            view = case.get("view") or {}
+            vd = view.get("dfs")
+            if vd:
+                src_name = algo if (vd["src"] == "same" and algo != "sha256") else other_flavour(algo)
+                src_odb = ops.make_odb("local", os.path.join(d, "view-src"), hash_name=src_name)
+                st_odb, _, st_tree = build(src_odb, w2, fs, src_name)
+                transfer(st_odb, src_odb, {st_tree.hash_info}, shallow=False, hardlink=False)
+                spy.phase()
+                listing = [(k, hi) for k, _, hi in st_tree] if isinstance(st_tree, Tree) else []
+                held = {}
+                for k, hi in listing:
+                    try:
+                        with open(src_odb.oid_to_path(hi.value), "rb") as f:
+                            held["/".join(k)] = f.read()
+                    except OSError:
+                        pass
+                if held != flat:
+                    # e.g. a CRLF and an LF twin share one md5-dos2unix address: the legacy cache cannot hold the
+                    # directory faithfully, the view would not show the same contents - not this property's matter
+                    classes.append("fs:view-source-cache-not-faithful(skipped)")
+                else:
+                    vfs, sizeless = data_view(vd, src_odb, st_tree.hash_info, listing,
+                                              {tuple(r.split("/")): len(b) for r, b in flat.items()})
+                    label = "view-dfs-" + vd["entries"]
+                    classes += ["fs:" + label, "fs:view-dfs-src=" + ("same" if src_name == algo else "other")]
+                    if src_name != algo and any(flat["/".join(k)] for k in sizeless):
+                        blind_hashed = True
+
+                    def view_sub():
+                        if subdirs:
+                            view_subs[label], _ = stage("data/" + "/".join(sp), label + "-subdir", vd["jobs"],
+                                                        sub_oid, sub_bytes, vfs=vfs, whole=False)
+
+                    if vd["sub_first"]:
+                        view_sub()
+                        classes.append("fs:view-dfs-subdir-before-root")
+                    stage("data", label, vd["jobs"], vfs=vfs, whole=True)
+                    if not vd["sub_first"]:
+                        view_sub()
+            vw = view.get("wrap")
+            if vw:
+                w = (w1, w2)[vw["copy"]]
+                modes = {os.path.join(w, *r.split("/")): vw["sizes"][i % len(vw["sizes"])] for i, r in enumerate(rels)}
+                bfs = size_blind_fs(modes, vw["perm"])
+                classes.append("fs:view-wrap")
+                for m in sorted({modes[os.path.join(w, *r.split("/"))] for r in rels if flat[r]} - {"true"}):
+                    classes.append("fs:view-wrap-size=" + m)
+                    blind_hashed = True
+                stage(w, "view-wrap", vw["jobs"], vfs=bfs, whole=True)
+                if subdirs:
+                    view_subs["view-wrap"], _ = stage(os.path.join(w, *sp), "view-wrap-subdir", vw["jobs"],
+                                                      sub_oid, sub_bytes, vfs=bfs, whole=False)
+            if blind_hashed:
+                classes.append("fs:view-hashed-nonempty-file-without-size")
+
             # same tree through an `ignore` object whose walk() yields the directories in a generated order
             wk = case.get("walk")
             if wk:
@@ -1249,22 +1458,20 @@ def run_fs(case, ctx):
                     classes.append("fs:partly-warm")
 
             # sub-directory: direct build vs get_obj vs reference
-            subdirs = sorted({tuple(r.split("/")[:k]) for r in rels for k in range(1, r.count("/") + 1)})
             if subdirs and t1 is not None:
-                p = subdirs[case["subdir"] % len(subdirs)]
                 classes.append("fs:subdir")
-                below = {"/".join(r.split("/")[len(p):]): v for r, v in manifest.items()
-                         if tuple(r.split("/")[:len(p)]) == p}
-                sub_pinned = all(v is not None for v in below.values())
-                sub_oid = ref_oid(below, algo) if sub_pinned else None
-                sub_bytes = ref_bytes(below, algo) if sub_pinned else None
-                s_obj, _ = stage(os.path.join(w1, *p), "subdir", case["jobs"], sub_oid, sub_bytes)
-                g = t1.get_obj(odb, p)
+                s_obj, _ = stage(os.path.join(w1, *sp), "subdir", case["jobs"], sub_oid, sub_bytes)
+                for vlabel, v_obj in sorted(view_subs.items()):
+                    if s_obj is not None and v_obj is not None and v_obj.hash_info.value != s_obj.hash_info.value:
+                        viols.append(Viol(f"fs-subdir-oid-source-dependent:{vlabel}",
+                                          f"sub-directory {sp} built through {vlabel} has id {v_obj.hash_info.value}, "
+                                          f"built from the local directory {s_obj.hash_info.value}"))
+                g = t1.get_obj(odb, sp)
                 if g is None or not isinstance(g, Tree) or (sub_pinned and g.as_bytes() != sub_bytes):
-                    viols.append(Viol("fs-get_obj-subdir", f"get_obj({p}) does not list the sub-directory"))
+                    viols.append(Viol("fs-get_obj-subdir", f"get_obj({sp}) does not list the sub-directory"))
                 elif hkey(algo) == "md5" and ((sub_pinned and g.oid != sub_oid)
                                               or (s_obj is not None and g.oid != s_obj.oid)):
-                    viols.append(Viol("fs-get_obj-subdir-oid", f"get_obj({p}).oid {g.oid} != direct build of the "
+                    viols.append(Viol("fs-get_obj-subdir-oid", f"get_obj({sp}).oid {g.oid} != direct build of the "
                                                                f"sub-directory"))
 
             # the staged listing, stored and re-parsed, is the same listing with the same id
@@ -1307,7 +1514,8 @@ def run_fs(case, ctx):
         classes.append("fs:pool>=2")
     if warm_hit:
         classes.append("fs:warm-hit")
-    return Result(viols, len(flat) >= 2 and (pool_max >= 2 or warm_hit or prewarmed or walk_root_late), classes,
+    return Result(viols, len(flat) >= 2 and (pool_max >= 2 or warm_hit or prewarmed or walk_root_late or blind_hashed),
+                  classes,
                   {"fs_cases": 1, "pool_hashed_files": pool_max})
 
 
